@@ -251,12 +251,8 @@ package rhp
 //@   assigns nothing
 //@ extern (*rhp4.RPCFormContractRequest).Validate
 //@   assigns nothing
-//@ extern rhp4.NewContract pure
-//@ extern rhp4.ContractCost pure
 //@ extern (types.Currency).Equals pure
 //@ extern (types.Currency).Sub pure
-//@ extern (types.SiacoinElement).Move
-//@   assigns nothing
 //
 //@ func (*Server).handleRPCFormContract props C16
 //@   requires s != nil && s.contractor != nil && s.chain != nil && s.wallet != nil && s.settings != nil && stream != nil
